@@ -306,6 +306,9 @@ def c17(ctx):
     rows = gen.reset_after_selection(ctx.rng, "cc14", 0, 1) + gen.reset_after_selection(ctx.rng, "pn", 0, ctx.q(8, 1)) \
         + gen.reset_after_selection(ctx.rng, "poll", ctx.rng.choice([0, 5]), ctx.q(8, 1))
     run_script(ctx, rows, "reset-after-concrete-values")
+    rows = gen.reset_after_histories(ctx.rng, "cc14", 0, depth=ctx.q(4, 5)) + gen.reset_after_histories(ctx.rng, "pn", 0, depth=ctx.q(4, 5)) \
+        + gen.reset_after_histories(ctx.rng, "poll", ctx.rng.choice([0, 5]), depth=ctx.q(4, 5))
+    run_script(ctx, rows, "reset-after-every-short-history")
     rows = []
     i = 0
     for kind in ("cc14", "pn", "poll"):      # new() == default()
